@@ -10,7 +10,15 @@ from . import report
 from .explore import HarnessError
 
 
+def _debug_hook():
+    # `kill -USR1 <pid>` prints where a (worker) process is: for looking into a run that does not come back
+    import faulthandler
+    import signal
+    faulthandler.register(signal.SIGUSR1, all_threads=True)
+
+
 def main(argv=None):
+    _debug_hook()
     ap = argparse.ArgumentParser()
     ap.add_argument('property')
     ap.add_argument('--tier', default=os.environ.get('VERIF_TIER') or 'quick', choices=['quick', 'thorough'])
